@@ -1,10 +1,11 @@
-(* Link C01 + C11, second form — domains in ANY letter case / with a trailing dot.
+(* Link C01 + C11 — domains in ANY letter case / with a trailing dot: the main composed theorem.
 
-   Link_route_with_real_domain_matcher needs the packet's domain in normal form because C01_Spec compares it with
-   the patterns byte for byte (see Link_C01_C11_normalisation_mismatch).  What the composition of the two models
-   gives for a raw sniffed name is stated here: the pipeline decides as C01's `decide` does FOR THE NORMALISED
-   NAME (lower case, one trailing dot removed — Link_DomainAdapter.s_norm, proved equal to C11's normalize,
-   i.e. strings.ToLower(strings.TrimSuffix(domain, ".")), and to C07_Spec.norm_name).  This is the statement a user of domain rules relies on. *)
+   Before C01_Spec read domain conditions on the normalised name, this file carried the any-case statement through a
+   "normalised packet".  C01_Spec now normalises itself (C01_Spec.normalise = Link_DomainAdapter.s_norm = C11's
+   normalize), so Link_C01_C11.Link_route_with_real_domain_matcher already IS the any-case statement, with no
+   "domain in normal form" premise and no premise about a second trailing dot (the name "a.." is read as "a." on both
+   sides).  It is re-exported here under the name the checks list, with wf_packet's alphabet premise in C01's own
+   terms, and the former mismatch witnesses as its instances. *)
 From Coq Require Import List Arith NArith Bool String Ascii Lia.
 From Dae Require Import C11_Spec C11_Model C11_Louds C11_Proofs C11_Layer3 C11_Props.
 From Dae.gen Require Import C11_Extracted.
@@ -14,98 +15,39 @@ From Dae Require Import Link_C01_C11.
 Import ListNotations.
 Open Scope N_scope.
 
-Definition with_domain (pk : packet) (d : string) : packet :=
-  {| p_src := p_src pk; p_dst := p_dst pk; p_sport := p_sport pk; p_dport := p_dport pk; p_l4 := p_l4 pk;
-     p_ipver := p_ipver pk; p_domain := d; p_regex_hits := p_regex_hits pk; p_pname := p_pname pk;
-     p_mac := p_mac pk; p_dscp := p_dscp pk |}.
-
-(* the packet as the rules see it *)
-Definition normalized_packet (pk : packet) : packet := with_domain pk (s_norm (p_domain pk)).
-
-(* Match reads the domain only to fetch the bitmap *)
-Lemma match_loop_domain : forall tries pk d bm ms i g b mu,
-  match_loop tries (args_of_packet (with_domain pk d)) bm ms i g b mu
-  = match_loop tries (args_of_packet pk) bm ms i g b mu.
-Proof.
-  intros tries pk d bm ms. induction ms as [|m ms IH]; intros i g b mu; [reflexivity|].
-  cbn [match_loop].
-  change (eval_mset tries (args_of_packet (with_domain pk d)) bm i m) with (eval_mset tries (args_of_packet pk) bm i m).
-  destruct (if b || g then Ok g else eval_mset tries (args_of_packet pk) bm i m) as [g1|e]; [|reflexivity].
-  destruct (negb (m_out m =? C01_Consts.OutboundLogicalOr)); cbn zeta beta iota;
-    repeat match goal with |- context [if ?c then _ else _] => destruct c end; try reflexivity; apply IH.
-Qed.
-
-Lemma model_route_domain : forall p dm dm' pk d,
-  (if String.eqb (p_domain pk) "" then None else Some (dm (p_domain pk)))
-  = (if String.eqb d "" then None else Some (dm' d)) ->
-  model_route p dm pk = model_route p dm' (with_domain pk d).
-Proof.
-  intros p dm dm' pk d H. unfold model_route.
-  destruct (lower_program p) as [b|]; [|reflexivity]. destruct (build_userspace b) as [mt|]; [|reflexivity].
-  unfold match_sets. change (a_domain (args_of_packet pk)) with (p_domain pk).
-  change (a_domain (args_of_packet (with_domain pk d))) with d. rewrite H.
-  destruct (mt_sets mt); [reflexivity|]. symmetry. apply match_loop_domain.
-Qed.
-
-(* MatchDomainBitmap depends on the raw name only through its normal form *)
-Lemma c11_bitmap_normalize : forall rx m raw raw',
-  normalize raw = normalize raw' -> c11_bitmap rx m raw = c11_bitmap rx m raw'.
-Proof.
-  intros rx m raw raw' H.
-  assert (E : forall i, c11_match_bit rx m raw i = c11_match_bit rx m raw' i).
-  { intros i. unfold c11_match_bit, match_bit.
-    rewrite <- !strip_dot_trim. fold (normalize raw) (normalize raw'). now rewrite H. }
-  unfold c11_bitmap, bitmap_words. apply map_ext. intros w. unfold word_of, word_bits.
-  induction (map N.of_nat (seq 0 32)) as [|b bs IH]; [reflexivity|]. cbn [fold_right]. now rewrite E, IH.
-Qed.
-
 Theorem Link_route_with_real_domain_matcher_any_case :
   forall (p : program) (pk : packet) (rx_ok : str -> bool) (rx : str -> str -> bool),
-    let pk' := normalized_packet pk in
     wf_program p = true ->
     kw_nonempty (c01_sets p) = true -> sets_size_ok (c01_sets p) -> sets_ok rx_ok (c01_sets p) = true ->
-    name_ok (bytes (p_domain pk)) = true ->                  (* raw name over the alphabet, any case *)
+    domain_alphabet_ok (p_domain pk) = true ->               (* C01's own wf_packet clause; any case, any dots *)
     c01_idx_ok p = true ->
-    normalized (bytes (p_domain pk')) ->                     (* i.e. not two trailing dots *)
-    (p_domain pk <> ""%string -> p_domain pk' <> ""%string) ->  (* i.e. not the root name "." *)
-    c01_regex_oracles_agree p rx pk' ->
+    p_domain pk <> "."%string ->                             (* not the root name *)
+    c01_regex_oracles_agree p rx pk ->                       (* regexp oracles agree on bytes (normalise raw) *)
     exists m, c11_build rx_ok (c01_sets p) = Some m /\
-              model_route p (c01_dm rx m) pk = Ok (decide p pk').
+              model_route p (c01_dm rx m) pk = Ok (decide p pk).
 Proof.
-  intros p pk rx_ok rx pk' Hwf Hk Hs Ho Hn Hidx Hz Hroot Hrx.
-  assert (Hn' : name_ok (bytes (p_domain pk')) = true).
-  { unfold pk', normalized_packet, with_domain. cbn [p_domain]. rewrite bytes_s_norm.
-    pose proof (normalize_pat_ok _ Hn) as Hp. unfold name_ok, pat_ok in *. rewrite forallb_forall in *.
-    intros c Hc. unfold name_char. now rewrite (Hp c Hc). }
-  destruct (Link_route_with_real_domain_matcher p pk' rx_ok rx Hwf Hk Hs Ho Hn' Hidx Hz Hrx) as [m [Hb Hr]].
-  exists m. split; [exact Hb|]. rewrite <- Hr. unfold pk', normalized_packet.
-  apply model_route_domain.
-  set (d := p_domain pk) in *. set (d' := s_norm d).
-  assert (Hbm : c01_dm rx m d = c01_dm rx m d').
-  { unfold c01_dm. apply c11_bitmap_normalize. unfold d'. rewrite bytes_s_norm.
-    symmetry. unfold pk', normalized_packet, with_domain in Hz. cbn [p_domain] in Hz.
-    fold d in Hz. rewrite bytes_s_norm in Hz. exact Hz. }
-  destruct (String.eqb_spec d "") as [E|E].
-  - subst d'. rewrite E. reflexivity.
-  - specialize (Hroot E). unfold pk', normalized_packet, with_domain in Hroot. cbn [p_domain] in Hroot. fold d d' in Hroot.
-    apply String.eqb_neq in Hroot. rewrite Hroot. now rewrite Hbm.
+  intros p pk rx_ok rx Hwf Hk Hs Ho Ha Hidx Hroot Hrx.
+  apply (Link_route_with_real_domain_matcher p pk rx_ok rx Hwf Hk Hs Ho); try assumption.
+  now rewrite <- c01_alphabet_name_ok.
 Qed.
 Print Assumptions Link_route_with_real_domain_matcher_any_case.
 
-(* the witnesses of the mismatch, now decided as the rules say: "A.b" and "a.b." are the name a.b *)
+(* "A.b", "a.b.", "a.b" and even "A.B." are the name a.b; "a.b.." is not (it is read as "a.b.") *)
 Example Link_C01_C11_any_case_nonvacuous :
   let p := lk_prog 1 DFull "a.b" in
-  forall d, In d ["A.b"; "a.b."; "a.b"]%string ->
-    p_domain (normalized_packet (lk_pk d)) = "a.b"%string /\
-    decide p (normalized_packet (lk_pk d)) = (2, 0, false) /\
+  (forall d, In d ["A.b"; "a.b."; "a.b"; "A.B."]%string ->
+    domain_alphabet_ok d = true /\ normalise d = "a.b"%string /\
+    decide p (lk_pk d) = (2, 0, false) /\
     exists m, c11_build lk_rx_ok (c01_sets p) = Some m /\
-      model_route p (c01_dm lk_rx m) (lk_pk d) = Ok (2, 0, false).
+      model_route p (c01_dm lk_rx m) (lk_pk d) = Ok (2, 0, false)) /\
+  domain_alphabet_ok "a.b.." = true /\ normalise "a.b.." = "a.b."%string /\
+  decide p (lk_pk "a.b..") = (0, 0, false) /\
+  exists m, c11_build lk_rx_ok (c01_sets p) = Some m /\
+    model_route p (c01_dm lk_rx m) (lk_pk "a.b..") = Ok (0, 0, false).
 Proof.
-  cbv zeta. intros d [<-|[<-|[<-|[]]]]; (split; [vm_compute; reflexivity|]; split; [vm_compute; reflexivity|];
-    apply with_build; vm_compute; reflexivity).
+  cbv zeta. split.
+  - intros d [<-|[<-|[<-|[<-|[]]]]]; (split; [vm_compute; reflexivity|]; split; [vm_compute; reflexivity|];
+      split; [vm_compute; reflexivity|]; apply with_build; vm_compute; reflexivity).
+  - split; [vm_compute; reflexivity|]. split; [vm_compute; reflexivity|]. split; [vm_compute; reflexivity|].
+    apply with_build; vm_compute; reflexivity.
 Qed.
-
-(* DISCHARGED relative to Link_route_with_real_domain_matcher: the premise "domain already in normal form"; the
-   spec is read on the normalised name instead.  REMAINING besides that theorem's premises: the raw name does not
-   end in two dots and is not the root "." (for those the matcher runs on a name that C01's spec reads as "no
-   domain"; same corner as Link_C07_C11_root_name_mismatch). *)
